@@ -57,6 +57,9 @@ func (u *Universe) frameObligations(prop string) []FrameResult {
 		add(u.groundGlobalInit("nameBase64", "base64.URLEncoding.WithPadding(base64.NoPadding)", []string{"C16", "C12"}))
 	}
 	add(u.effectObligations(prop)...)
+	for _, r := range u.frameCaseCalls(prop) {
+		out = append(out, r)
+	}
 	sort.Slice(out, func(i, j int) bool { return out[i].Name < out[j].Name })
 	return out
 }
